@@ -378,6 +378,33 @@ func propC08(o *out, r *rng, thorough bool) {
 			}
 		}
 	}
+	for _, lit := range []string{"5M", "1H", "10S", "7U", "9NS", "2D", "3W", "5Ms", "1H30m", "1h30M", "1µS"} {
+		for _, tmpl := range []string{"SELECT mean(v) FROM m GROUP BY time(%s)", "SELECT v FROM m WHERE time > now() - %s", "CREATE RETENTION POLICY p ON d DURATION %s REPLICATION 1", "SELECT %s FROM m"} {
+			text := fmt.Sprintf(tmpl, lit)
+			addParseStmtCase(o, text, nil)
+			o.count("other-case-unit")
+			o.checked()
+			if _, derr := influxql.ParseDuration(lit); derr == nil {
+				continue
+			}
+			st, err := influxql.ParseStatement(text)
+			if err != nil {
+				continue
+			}
+			found := false
+			influxql.WalkFunc(st, func(n influxql.Node) {
+				if _, ok := n.(*influxql.DurationLiteral); ok {
+					found = true
+				}
+			})
+			if rp, ok := st.(*influxql.CreateRetentionPolicyStatement); ok && rp.Duration != 0 {
+				found = true
+			}
+			if found {
+				o.fail("", fmt.Sprintf("%q is accepted with a duration although ParseDuration(%q) is an error", text, lit), map[string]interface{}{"op": "duration_case", "text": text})
+			}
+		}
+	}
 	for _, lit := range []string{"1h", "90m", "1h30m", "5124096h", "15251w", "2562047h47m16s854ms775u807ns", "106751d23h47m16s854ms775u808ns", "0s", "1ns", "3µ", "7u", "10ms", "1w2d"} {
 		c08InStatement(o, lit)
 	}
